@@ -1,6 +1,7 @@
 import Dhlldv.Lemmas.Basic
 import Dhlldv.Lemmas.Interp
 import Dhlldv.Spec.Fracs
+import Dhlldv.Lemmas.FracsSorted
 import Mathlib.Tactic.Positivity
 import Mathlib.Tactic.FieldSimp
 import Mathlib.Tactic.Ring
@@ -103,3 +104,31 @@ theorem C12_getDx_is_lookup (gsd : FDict ℝ) (frac : ℝ) (h0 : 0 < frac) (h1 :
   simp only [Bool.false_eq_true, if_false]
   cases ({ pts := gsd.map (fun p => (p.1, Transc.log10 p.2)), exLow := true, exHigh := true, tol := 0.001 } : InterpTable ℝ).lookup frac <;> rfl
 
+
+
+/-- the fractions of the discretised grading are STRICTLY INCREASING — for every input distribution, pipe and carrier, every requested count
+(the dict overwrites on equal keys, `sorted` orders them; no hypothesis) -/
+theorem C12_fractions_strictly_increasing (natTo : Nat → ℝ) (trunc : ℝ → Nat) (pts : List (ℝ × ℝ)) (Dp nu rhol rhos : ℝ) (n : Nat) :
+    (createFracs natTo trunc pts Dp nu rhol rhos n).gsd.Pairwise (fun p q => p.1 < q.1) := by
+  unfold createFracs
+  match pts with
+  | [] => exact List.Pairwise.nil
+  | [_] => exact List.Pairwise.nil
+  | lo :: nx :: rest =>
+    simp only
+    generalize skipBelow (framework.pseudo_dlim Dp nu rhol rhos) (lo :: nx :: rest).length lo nx rest ((lo :: nx :: rest).length - 1) = sk
+    obtain ⟨lo', nx', rest', pl⟩ := sk
+    simp only
+    have hd0 : ∀ (b : Bool) (X dl : ℝ), KeysNodup (if b = true then [(X, dl)] else []) := by
+      intro b X dl; cases b <;> simp [KeysNodup]
+    generalize hseg : segments _ natTo (rest'.length + 1) _ _ nx' rest' _ (0.0 : ℝ) = sg
+    have hsg : KeysNodup sg.1 := by
+      rw [← hseg]; exact segments_nodup _ _ _ _ _ _ _ _ _ (hd0 _ _ _)
+    obtain ⟨d, fs⟩ := sg
+    simp only
+    cases hr : (sortF d).reverse with
+    | nil => simp only; exact sortF_strict d hsg
+    | cons top tl =>
+      cases tl with
+      | nil => simp only; exact sortF_strict d hsg
+      | cons below tl' => simp only; exact sortF_strict _ (setF_nodup _ _ _ hsg)
